@@ -3,6 +3,7 @@ handshake.  Used by C01 (bytes relayed unmodified, in order, once), C04 (end-of-
 (byte counters equal the payload relayed)."""
 import re
 import z3
+import harness
 from values import Int, Bool, UNIT, Agg, Ref, Opaque, Bytes, SeqV, Future, Stream, BV, simp, concrete, fresh_name
 from engine import State, Unsupported
 import contracts as C
@@ -126,7 +127,7 @@ def check_handover(ck):
     if fn is None:
         return
     ex = ck.engine(loop_bound=3, call_depth=8)
-    ex.benign_havoc = re.compile(r'.')
+    ex.benign_havoc = harness.IRRELEVANT
     ex.no_inline = [re.compile(r'copy_half|Context::|SrcHalf|DstHalf|has_raw_fd|into_owned_fd')]
     ex.havoc_result_ok = True      # fd duplication / registration with the reactor succeed (resource exhaustion is not the subject)
     ex.max_paths = 2000
@@ -193,7 +194,7 @@ def check_copy_bidi_completion(ck):
     if fn is None:
         return
     ex = ck.engine(loop_bound=3, call_depth=8)
-    ex.benign_havoc = re.compile(r'.')
+    ex.benign_havoc = harness.IRRELEVANT
     ex.no_inline = [re.compile(r'copy_half|drain_buffers|Context::|SrcHalf|DstHalf|has_raw_fd|into_owned_fd')]
     ex.havoc_result_ok = True
     ex.max_paths = 3000
